@@ -220,6 +220,12 @@ impl Clone for P {
 impl Drop for P {
     fn drop(&mut self) {
         let _u = Untrack::new();
+        // a destructor of arbitrary duration: whoever destroys a value in place
+        // must own the slot for the whole time
+        let slow = led().slow;
+        for _ in 0..slow.min(1) {
+            user_point(self as *const P as usize);
+        }
         let mut l = led();
         if self.id != !self.nid
             || self.serial != !self.nserial
